@@ -84,7 +84,8 @@ Definition embedded (terms : list term) : list string :=
 
 (* new_terminals *)
 Definition scanner_terms (terms : list term) : list term :=
-  filter (fun t => negb (mem_string (tname t) (embedded terms))) terms.
+  let e := embedded terms in
+  filter (fun t => negb (mem_string (tname t) e)) terms.
 
 (* keys of the callback dict, in the order of the regexp terminals *)
 Definition callback_keys (terms : list term) : list string :=
